@@ -135,6 +135,7 @@ func doInitExtensions(domain string, agentPaths []string, execCtx *rapidContext,
 	if err := initFlow.SetExternalAgentsRegisterCount(uint16(len(agentPaths))); err != nil {
 		return err
 	}
+	verifAt("init.afterRegisterCount")
 
 	for _, agentPath := range agentPaths {
 		// Using path.Base(agentPath) not agentName because the agent name is contact, as standalone can get the internal state.
